@@ -230,6 +230,7 @@ def gen_cli(tier):
         for r in rights:
             for m in markers:
                 yield {'cli': 'run', 'left': l, 'marker': m, 'right': r}
+    yield {'cli': 'bare_name'}
     # nothing must run
     for words in ([], ['-p', '-r', PROG], ['-l', 'nofile', '--run', PROG], ['-f', '[', '-r', PROG], ['-b', 'a:b:c', '-r', PROG],
                   ['-rC', PROG], ['-x', '-r', PROG], [PROG, '-r', PROG], ['-f', '-r', PROG]):
@@ -256,6 +257,13 @@ def eval_cli(case):
                     V.append(Violation('cli.run', case, {'child_saw': [g.decode('utf-8', 'replace') for g in got] if got is not None else None,
                                                          'want': [w.decode() for w in want], 'returncode': p.returncode,
                                                          'stderr': p.stderr[-300:]}))
+            elif case['cli'] == 'bare_name':
+                out = os.path.join(d, 'argv0')
+                argv = ['/venv/bin/python', main_py, '-r', 'sh', '-c', 'printf "%s" "$0" > "' + out + '"']
+                p = subprocess.run(argv, input='q\n', capture_output=True, text=True, env=env, cwd=d, timeout=60)
+                got = open(out).read() if os.path.exists(out) else None
+                if got != 'sh':
+                    V.append(Violation('cli.program_name', case, {'program_saw_argv0': got, 'want': 'sh', 'stderr': p.stderr[-300:]}))
             elif case['cli'] == 'norun':
                 argv = ['/venv/bin/python', main_py] + case['words']
                 p = subprocess.run(argv, input='q\n', capture_output=True, text=True, env=env, cwd=d, timeout=60)
